@@ -738,6 +738,9 @@ func genSpec(r *hx.Rng) Spec {
 	for k := r.Intn(5); k > 0; k-- {
 		s.Noise = append(s.Noise, Noise{Before: r.Range(2, nlines-1), Text: hx.Pick(r, texts)})
 	}
+	if r.Chance(1, 15) {
+		s.Noise = append(s.Noise, Noise{Before: 1, Text: ""}) // a blank line between the magic number and the format line
+	}
 	if ascii {
 		total := len(s.Verts) + len(s.Faces)
 		for k := r.Intn(3); k > 0 && total > 0; k-- {
@@ -826,7 +829,71 @@ const keyUcharRaw = "ply:ascii-uchar-scalar-raw"
 func specCase(s Spec, kind string) hx.Case {
 	normalise(&s)
 	data := render(s)
-	return specCaseOut(s, kind, data, plyx.SafeRead(data))
+	out := plyx.SafeRead(data)
+	c := specCaseOut(s, kind, data, out)
+	if otherPaths && c.GoFail == "" && s.Cut == 0 {
+		if diff := plyx.OtherPaths(data, out, tmpDir); diff != "" {
+			c.GoFail = "the same bytes load differently through " + diff
+			c.FailKey = "ply:read-path"
+		}
+	}
+	return c
+}
+
+// otherPaths: also read the file through a reader with short reads, ply.Load and the ReadNode wrapper (set for the fixed
+// streams, every fourth generated file and every formula file)
+var otherPaths bool
+var tmpDir string
+
+// malformed: headers and bodies that do not follow the specification, or use what the reader does not implement (model
+// against implementation only: the reader must report them as the model says, and come back)
+var malformed = []string{
+	"ply\nformat ascii 2.0\nelement vertex 0\nproperty float x\nend_header\n",
+	"ply\nformat binary 1.0\nelement vertex 0\nproperty float x\nend_header\n",
+	"ply\nformat ascii\nelement vertex 0\nproperty float x\nend_header\n",
+	"plyx\nformat ascii 1.0\nelement vertex 0\nproperty float x\nend_header\n",
+	"ply\nformat ascii 1.0\nelement vertex\nproperty float x\nend_header\n",
+	"ply\nformat ascii 1.0\nelement vertex many\nproperty float x\nend_header\n",
+	"ply\nformat ascii 1.0\nelement vertex 0\nproperty float\nend_header\n",
+	"ply\nformat ascii 1.0\nelement vertex 0\nproperty list uchar x\nend_header\n",
+	"ply\nformat ascii 1.0\nproperty float x\nelement vertex 0\nend_header\n",
+	"ply\nformat ascii 1.0\nelement vertex 0\nproperty floot x\nend_header\n",
+	"ply\nformat ascii 1.0\nelement face 0\nproperty list uchar int vertex_indices\nend_header\n",
+	"ply\nformat ascii 1.0\nelement vertex 1\nproperty float x\nelement face 1\nproperty int flags\nproperty list uchar int vertex_indices\nend_header\n1\n0 3 0 0 0\n",
+	"ply\nformat ascii 1.0\nelement vertex 1\nproperty float x\nelement face 1\nproperty list uchar int corners\nend_header\n1\n3 0 0 0\n",
+	"ply\nformat ascii 1.0\nelement vertex 1\nproperty float x\nproperty float y\nproperty float z\nend_header\n1 abc 3\n",
+	"ply\nformat ascii 1.0\nelement vertex 1\nproperty float x\nelement face 1\nproperty list uchar int vertex_indices\nend_header\n1\nthree 0 0 0\n",
+	"ply\nformat ascii 1.0\nelement vertex 1\nproperty float x\nelement face 1\nproperty list uchar int vertex_indices\nend_header\n1\n3 0 zero 0\n",
+	"ply\nformat ascii 1.0\nelement vertex 1\nproperty short x\nproperty short y\nproperty short z\nend_header\n1 2 3\n",
+	"ply\nformat binary_little_endian 1.0\nelement vertex 1\nproperty short x\nproperty short y\nproperty short z\nend_header\n\x01\x00\x02\x00\x03\x00",
+	"ply\nformat binary_big_endian 1.0\nelement vertex 1\nproperty ushort s\nproperty ushort t\nend_header\n\x00\x01\x00\x02",
+	"ply\nformat binary_little_endian 1.0\nelement vertex 1\nproperty uint r\nproperty uint g\nproperty uint b\nproperty uint a\nend_header\n\x01\x00\x00\x00\x02\x00\x00\x00\x03\x00\x00\x00\x04\x00\x00\x00",
+	"ply\nformat binary_little_endian 1.0\nelement vertex 3\nproperty uchar q\nelement face 1\nproperty list uchar int vertex_indices\nproperty list uchar int texcoord\nend_header\n\x01\x02\x03\x03\x00\x00\x00\x00\x01\x00\x00\x00\x02\x00\x00\x00\x06\x01\x00\x00\x00\x02\x00\x00\x00\x03\x00\x00\x00\x04\x00\x00\x00\x05\x00\x00\x00\x06\x00\x00\x00",
+	"ply\nformat ascii 1.0\nelement vertex 1\nproperty float x\nelement vertex 2\nproperty float y\nend_header\n1\n2\n",
+	"ply\n\n\nformat ascii 1.0\nelement vertex 1\nproperty float x\nend_header\n1\n",
+}
+
+type RawDesc struct {
+	Raw string `json:"raw"`
+}
+
+func rawCase(d RawDesc, kind string) hx.Case {
+	data := []byte(d.Raw)
+	out := plyx.SafeRead(data)
+	c := hx.Case{Kind: kind, Desc: d}
+	sum := sha1.Sum(data)
+	c.Key = hex.EncodeToString(sum[:])
+	file, ok := plyx.FileCoq(data)
+	if !ok {
+		c.Coq = "CRaw {| pf_header := []; pf_body := BodyBin [] |} ODeclared"
+		return c
+	}
+	c.Coq = fmt.Sprintf("CRaw %s %s", file, plyx.OutcomeCoq(out))
+	if out.Class == "hang" {
+		c.GoFail = "ReadMesh does not come back on a malformed file"
+		c.FailKey = "ply:read-hang"
+	}
+	return c
 }
 
 // specCaseOut: the case for abstract file s, rendered as data, on which the implementation came back with out.
@@ -889,7 +956,61 @@ func specCaseOut(s Spec, kind string, data []byte, out plyx.Outcome) hx.Case {
 type Pair struct {
 	First  Spec   `json:"first"`
 	Second Spec   `json:"second"`
-	Mode   string `json:"mode"` // retained | again
+	Mode   string `json:"mode"` // retained | again | after ("after": the case is the second file, read after the first)
+}
+
+// revalued: the same layout and record count with other vertex values.
+func revalued(s Spec, r *hx.Rng) Spec {
+	t := s
+	t.Verts = nil
+	for range s.Verts {
+		rec := make([]uint64, len(s.VProps))
+		for j, p := range s.VProps {
+			rec[j] = genWord(r, p.Ty, s.Fmt == "ascii")
+		}
+		t.Verts = append(t.Verts, rec)
+	}
+	return t
+}
+
+// retyped: the same file with other types under the same property names and in the same order (what a reader might
+// wrongly remember from one call to the next: sizes, offsets, types keyed by name).
+func retyped(s Spec, r *hx.Rng) Spec {
+	t := s
+	t.VProps = append([]VProp(nil), s.VProps...)
+	t.Verts = nil
+	ascii := s.Fmt == "ascii"
+	for i := range t.VProps {
+		ty := hx.Pick(r, []string{"float", "double", "int", "float", "double"})
+		if ty == t.VProps[i].Ty {
+			ty = map[string]string{"float": "double", "double": "float", "int": "double"}[ty]
+		}
+		t.VProps[i].Ty = ty
+		t.VProps[i].Alias = hx.Pick(r, aliases[ty])
+	}
+	// groups stay type-uniform: every member takes the type of the group's first declared member
+	for _, g := range groups {
+		first := ""
+		for i := range t.VProps {
+			for _, m := range g {
+				if t.VProps[i].Name == m {
+					if first == "" {
+						first = t.VProps[i].Ty
+					}
+					t.VProps[i].Ty = first
+					t.VProps[i].Alias = first
+				}
+			}
+		}
+	}
+	for range s.Verts {
+		rec := make([]uint64, len(t.VProps))
+		for j, p := range t.VProps {
+			rec[j] = genWord(r, p.Ty, ascii)
+		}
+		t.Verts = append(t.Verts, rec)
+	}
+	return t
 }
 
 func pairCase(p Pair) hx.Case {
@@ -897,9 +1018,15 @@ func pairCase(p Pair) hx.Case {
 	normalise(&p.Second)
 	d1, d2 := render(p.First), render(p.Second)
 	out := plyx.SafeRead(d1)
-	plyx.SafeRead(d2)
+	out2 := plyx.SafeRead(d2)
 	if p.Mode == "again" {
 		out = plyx.SafeRead(d1)
+	}
+	if p.Mode == "after" {
+		c := specCaseOut(p.Second, p.Mode, d2, out2)
+		c.Desc = p
+		c.Key = p.Mode + ":" + c.Key
+		return c
 	}
 	c := specCaseOut(p.First, p.Mode, d1, out)
 	c.Desc = p
@@ -1188,11 +1315,13 @@ func main() {
 	flag.BoolVar(&misplaced, "misplaced", false, "also generate elements before vertex / between vertex and face")
 	run := hx.ParseFlags("C08", "Check.C08")
 	run.ShardMax = 100 // a shard of 250 files needs 1.2 GB in coqc; 16 run in parallel
+	tmpDir = run.OutDir
 	for _, in := range run.Inputs() {
 		var probe struct {
 			Big   bool   `json:"big"`
 			Mode  string `json:"mode"`
 			First *Spec  `json:"first"`
+			Raw   string `json:"raw"`
 		}
 		json.Unmarshal(in.Raw, &probe)
 		switch {
@@ -1201,6 +1330,8 @@ func main() {
 			if err := json.Unmarshal(in.Raw, &d); err == nil && len(d.VProps) > 0 {
 				run.Add(bigCase(d, in.Kind))
 			}
+		case probe.Raw != "":
+			run.Add(rawCase(RawDesc{Raw: probe.Raw}, in.Kind))
 		case probe.First != nil:
 			var p Pair
 			if err := json.Unmarshal(in.Raw, &p); err == nil && len(p.First.VProps) > 0 {
@@ -1220,6 +1351,10 @@ func main() {
 	// files past internal block sizes are costly to evaluate: they are spread evenly over the case list (and so over
 	// the shards that coqc evaluates in parallel)
 	var small, big []hx.Case
+	otherPaths = true
+	for _, m := range malformed {
+		small = append(small, rawCase(RawDesc{Raw: m}, "malformed"))
+	}
 	for _, s := range corner() {
 		small = append(small, specCase(s, "corner"))
 	}
@@ -1237,6 +1372,7 @@ func main() {
 	var prev *Spec
 	for i := 0; i < run.N; i++ {
 		s := genSpec(r)
+		otherPaths = i%4 == 1
 		kind := "spec"
 		if i%12 == 11 {
 			// malformed stream: the same file with its tail cut off (inside the body)
@@ -1292,9 +1428,18 @@ func main() {
 			}
 		}
 		// two files through the same reader: the first one's mesh rendered after / the first one read again after the second
-		if i%15 == 7 && s.Cut == 0 && prev != nil && outside(s) == "" && outside(*prev) == "" {
-			mode := hx.Pick(r, []string{"retained", "again"})
-			small = append(small, pairCase(Pair{First: *prev, Second: s, Mode: mode}))
+		if i%10 == 7 && s.Cut == 0 && prev != nil && outside(s) == "" && outside(*prev) == "" {
+			mode := hx.Pick(r, []string{"retained", "again", "after", "after"})
+			p := Pair{First: *prev, Second: s, Mode: mode}
+			if mode == "after" {
+				// the same names with other types, read right after one another
+				p = Pair{First: s, Second: retyped(s, r), Mode: mode}
+			}
+			if mode == "retained" {
+				// the same layout and counts with other values (whatever a reader recycles fits exactly)
+				p = Pair{First: s, Second: revalued(s, r), Mode: mode}
+			}
+			small = append(small, pairCase(p))
 			run.Count("pair:" + mode)
 		}
 		if s.Cut == 0 {
